@@ -260,6 +260,14 @@ func (r *Recorder) End(tid int, outcome string) {
 	r.add(Event{Kind: "end", Tid: tid, Out: outcome})
 }
 
+// Kill suppresses every further event of task tid (its step never returned).
+func (r *Recorder) Kill(tid int) {
+	r.mu.Lock()
+	r.dead[tid] = true
+	delete(r.gets, tid)
+	r.mu.Unlock()
+}
+
 // Snap records the committed database now.
 func (r *Recorder) Snap() {
 	r.mu.Lock()
